@@ -270,6 +270,68 @@ def pdf_ob(base, via):
               f"{T}::TruncatedGaussianPDF.__call__", group="pdf")
 
 
+_CANCELLING_CDF = ("erf",)
+
+
+def summary_ob(fname):
+    """the checks above replace misc.normal_cdf / normal_pdf by the opaque standard normal cdf / pdf: this obligation reads their BODIES.
+    Algebra: the body equals norm.cdf(x) / norm.pdf(x), given that a guard `norm.cdf(x) < 1` holds (true for every finite x).
+    Tail accuracy (structural): the cdf is not assembled from erf - 1 + erf(x / sqrt 2) has absolute accuracy only, so masses of
+    lower-tail intervals lose their relative accuracy and vanish below -8.3 sigma, where norm.cdf (erfc-based) is accurate to rounding."""
+    M = "gaussian_toolbox/experimental/misc.py"
+
+    def run():
+        prog = model.load()
+        fn = prog.functions.get(("experimental.misc", fname))
+        if fn is None:
+            raise model.AnchorError(f"experimental/misc.py::{fname} not found")
+        if fname == "normal_cdf":
+            for n in ast.walk(fn):
+                if isinstance(n, ast.Call):
+                    r = prog.resolve_static("experimental.misc", n.func)
+                    nm = r[1].rsplit(".", 1)[-1] if r and r[0] == "ext" else None
+                    if nm in _CANCELLING_CDF:
+                        raise Refuted(f"{M}:{n.lineno} in {fname}: `{ast.unparse(n)[:80]}` - the cdf is assembled from erf: 1 + erf(x / sqrt 2) cancels for x < 0 "
+                                      "(absolute accuracy 1e-16 only), so the mass of a lower-tail interval has no relative accuracy and is exactly 0 below -8.3 sigma; "
+                                      "norm.cdf / erfc keep the relative accuracy the normalised truncated density divides by", f"{M}::{fname}")
+        I = build.new_interp()
+        if fname == "binom":
+            # k! / (i! (k-i)!) through log-gamma, rounded to the nearest integer
+            k, i = nf.atom("k", []), nf.atom("i", [])
+            got = I.call_fn(fn, "experimental.misc", None, None, [k, i], {})
+            g = lambda v: nf.elementwise("GammaLn", nf.add(v, nf.const(1)))
+            want = nf.elementwise("Round", nf.elementwise("Exp", nf.add(nf.add(g(k), g(i), -1), g(nf.add(k, i, -1)), -1)))
+            d = nf.diff(got, want, what=fname)
+            if d:
+                # without the rounding (exact in real arithmetic)
+                d2 = nf.diff(got, nf.elementwise("Exp", nf.add(nf.add(g(k), g(i), -1), g(nf.add(k, i, -1)), -1)), what=fname)
+                d = d2 if not d2 else d
+            return [tuple(q) for q in d[:4]], dict(funcs=funcs_of(I))
+        x = nf.atom("x", [sym("R"), 1])
+        got = I.call_fn(fn, "experimental.misc", None, None, [x], {})
+        from ..intrinsics import elementwise_inf, _compare_vals
+        kind = "Normcdf" if fname == "normal_cdf" else "Normpdf"
+        want = elementwise_inf(kind, x)
+        d = nf.diff(got, want, what=fname)
+        if d and fname == "normal_cdf":
+            # guards comparing the cdf with 1 are decided in exact arithmetic (cdf(x) < 1 for every finite x): substitute their truth values
+            one, zero = nf.add(nf.scale(x, D(0)), nf.const(1)), nf.scale(x, D(0))
+            g2 = got
+            truth = {"Lt": 1, "Le": 1, "Ne": 1, "Gt": 0, "Ge": 0, "Eq": 0}
+            flip = {"Lt": "Gt", "Le": "Ge", "Gt": "Lt", "Ge": "Le", "Eq": "Eq", "Ne": "Ne"}
+            for kd, tv in truth.items():
+                for guard in (_compare_vals(kd, want, nf.const(1)), _compare_vals(flip[kd], nf.const(1), want)):
+                    try:
+                        g2 = nf.subst_head_top(g2, guard, one if tv else zero, what="cdf < 1")
+                    except Undecided:
+                        continue
+            d = nf.diff(g2, want, what=fname)
+        return [tuple(q) for q in d[:4]], dict(funcs=funcs_of(I))
+    what = {"normal_cdf": "the standard normal cdf, computed without the cancelling 1 + erf form", "normal_pdf": "the standard normal pdf",
+            "binom": "the binomial coefficient exp(lgamma(k+1) - lgamma(i+1) - lgamma(k-i+1))"}[fname]
+    return Ob(f"summary/{fname}", run, f"the body of misc.{fname} is {what} (which the other obligations substitute for it)", f"{M}::{fname}", group="summary")
+
+
 def obligations(tier):
     prog = model.load()
     obs = [table_ob(prog)]
@@ -292,10 +354,11 @@ def obligations(tier):
             if base == "pdf" and k > 4 and tier == "quick":
                 continue
             obs.append(power_ob(base, k))
+    obs += [summary_ob("normal_cdf"), summary_ob("normal_pdf"), summary_ob("binom")]
     return obs
 
 
-FLOORS = {"group:table": 1, "group:indicator": 6, "group:homogeneity": 6, "group:pdf": 6, "group:closed-form": 9, "group:power": 12, "group:zero-mass": 10, "group:pdf-moments": 6}
+FLOORS = {"group:table": 1, "group:indicator": 6, "group:homogeneity": 6, "group:pdf": 6, "group:closed-form": 9, "group:power": 12, "group:zero-mass": 10, "group:pdf-moments": 6, "group:summary": 3}
 LEVEL = "other"
 EXPLANATION = ("Partial: dispatch table, support indicator, degree-one homogeneity of integrate('1'|'x'|'x**2') in the base mass and that the normalised variant evaluates the "
                "NORMALISED base density, for finite generic limits; closed forms of the integrals of 1, x, x**2 in Phi / phi; integrate('x**k') for every k in 0..6 (lax.scan unrolled) "
